@@ -277,6 +277,98 @@ fn cancel_case(st: &mut Stats, seed: u64) {
     }
 }
 
+/// (f) both endpoints ask at the same moment and their generators hand out the same flow id (and, in a second variant, the
+/// requester's id is one the responder is using for a live stream of its own): a Bind request is shown to the peer application
+/// whatever the responder's own table holds under that id, and each request gets the answer given to that very request.
+fn crossing_case(st: &mut Stats, seed: u64) {
+    st.evaluations += 1;
+    st.engine("SIM", 1);
+    let mut rng = Rng64::new(mix(seed, 0xCB));
+    let answers = [*rng.pick(&[BindAnswer::Accept, BindAnswer::Reject, BindAnswer::Drop]), *rng.pick(&[BindAnswer::Accept, BindAnswer::Reject, BindAnswer::Drop])];
+    let with_live_stream = rng.chance(1, 2);
+    let cfg = [EpCfg { bind_buf: 4, ..EpCfg::default() }, EpCfg { bind_buf: 4, ..EpCfg::default() }];
+    let x: u32 = rng.next() as u32 | 1;
+    let plans = vec![
+        BindPlan { id: 1, from: 0, datagram_type: rng.chance(1, 2), host_len: 5, port: 301, answer: answers[0], answer_delay: rng.below(12), call_delay: 0 },
+        BindPlan { id: 2, from: 1, datagram_type: rng.chance(1, 2), host_len: 9, port: 302, answer: answers[1], answer_delay: rng.below(12), call_delay: 0 },
+    ];
+    let sh = sim::Shared::new(mix(seed, 8), rng.below(4) as u8);
+    let plans2 = plans.clone();
+    let cfg2 = cfg.clone();
+    let end = sim::run(&sh, move |sh| async move {
+        let ([e0, e1], _net) = wl::connect(&sh, [&cfg2[0], &cfg2[1]], [0, 0], [None, None], seed, true);
+        let all = Arc::new(plans2.clone());
+        let resp: Vec<_> = [(&e0, 0u8), (&e1, 1u8)].iter().map(|(e, ep)| sim::spawn(&sh, 8500 + u64::from(*ep), wl::bind_responder(sh.clone(), e.mux.clone(), *ep, seed, all.clone()))).collect();
+        // variant: endpoint 1 still holds its end of a stream that endpoint 0 opened under id x, finished and let go of; endpoint 0's
+        // table no longer has x, endpoint 1's does - and endpoint 0 now uses x for its bind request
+        let acc_mux = e1.mux.clone();
+        let acc = sim::spawn(&sh, 2001, async move {
+            let mut keep = Vec::new();
+            while let Ok(s) = acc_mux.accept_stream_channel().await {
+                keep.push(s);
+            }
+        });
+        if with_live_stream {
+            e0.rng.push(&[x]);
+            sh.api(0, 78, Api::OpenCall);
+            if let Ok(mut s) = e0.mux.new_stream_channel(b"s78.", 5).await {
+                use tokio::io::AsyncWriteExt;
+                s.shutdown().await.ok();
+                drop(s);
+            }
+            sim::quiesce().await;
+        }
+        e0.rng.push(&[x]);
+        let mut hs = Vec::new();
+        if with_live_stream {
+            hs.push(sim::spawn(&sh, 8601, wl::bind_requester(sh.clone(), e0.mux.clone(), 0, seed, plans2[0].clone())));
+        } else {
+            e1.rng.push(&[x]);
+            hs.push(sim::spawn(&sh, 8601, wl::bind_requester(sh.clone(), e0.mux.clone(), 0, seed, plans2[0].clone())));
+            hs.push(sim::spawn(&sh, 8602, wl::bind_requester(sh.clone(), e1.mux.clone(), 1, seed, plans2[1].clone())));
+        }
+        for h in hs {
+            h.await.ok();
+        }
+        sim::quiesce().await;
+        sh.api(0, 0, Api::Teardown);
+        for r in &resp {
+            r.abort();
+        }
+        acc.abort();
+        for r in resp {
+            r.await.ok();
+        }
+        acc.await.ok();
+        let (m0, t0, m1, t1) = (e0.mux, e0.task, e1.mux, e1.task);
+        sh.api(0, 0, Api::MuxDrop);
+        drop(m0);
+        t0.await.ok();
+        drop(m1);
+        t1.await.ok();
+    });
+    let log = sh.take_log();
+    let metas: Vec<BindMeta> = plans.iter().filter(|b| !with_live_stream || b.from == 0).map(|b| BindMeta { id: b.id, from: b.from, port: b.port, answer: ans_name(b.answer), responder_enabled: true }).collect();
+    let meta = Meta { sim: true, binds: metas, dgram_cap: [16, 16], ..Meta::default() };
+    let an = monitors::analyse(&log, SPEC.fams, &meta);
+    let how = if with_live_stream { "id-of-responders-live-stream" } else { "crossing-same-id" };
+    let replay = |at: usize| json!({"kind": "c15-crossing", "run_seed": seed, "how": how, "answers": format!("{:?}", [ans_name(answers[0]), ans_name(answers[1])]), "trace": sim::render(&log[..at.min(log.len())], 70)});
+    match end {
+        sim::RunEnd::Finished(()) => {
+            st.target("same_id_bind_runs", 1);
+            st.nontrivial(mix(sh.hash(), u64::from(x)));
+        }
+        sim::RunEnd::Stalled => st.violation(Violation { signature: format!("stall|{how}"), detail: "a bind request whose flow id the responder also uses never resolved although the peer application answered it (or was never shown it)".into(), replay: replay(log.len()) }),
+        sim::RunEnd::Panicked(m) => st.inconclusive.push(format!("harness panic in c15 crossing: {m}")),
+    }
+    for f in an.findings {
+        st.violation(Violation { signature: format!("{}|{how}", f.sig), detail: f.detail, replay: replay(f.at + 1) });
+    }
+    for (k, v) in &an.counters.c {
+        st.count(k, *v);
+    }
+}
+
 /// A peer that is not this crate picks its own flow ids (0 included: Bind ids are not kept in the flow table). Whatever the
 /// id, the request is answered exactly once: Finish when the application accepts, Reset when it rejects or just drops it.
 fn raw_bind_case(st: &mut Stats, seed: u64) {
@@ -438,6 +530,8 @@ pub fn run(p: &Params) -> (Stats, &'static str) {
             after_end_case(&mut st, seed);
         } else if i % 16 == 7 {
             cancel_case(&mut st, seed);
+        } else if i % 16 == 15 {
+            crossing_case(&mut st, seed);
         } else if i % 4 == 3 {
             reuse_case(&mut st, seed);
         } else {
